@@ -62,6 +62,10 @@ class LayoutInterp:
             if nm in ("int16", "copy", "asarray", "array", "ascontiguousarray") and args:
                 v = self.ev(args[0])
                 return v
+            if nm in ("ravel", "flatten", "squeeze", "copy") and recv is not None and not args:
+                v = self.ev(recv)
+                if v.kind in ("words", "other"):
+                    return v          # a vector of words stays a vector of words
             if nm == "astype":
                 v = self.ev(recv)
                 if v.kind in ("rows", "flatbits"):
